@@ -100,59 +100,3 @@ proofs! {
 	}
 }
 
-// ---------------------------------------------------------------------------------------------
-// the transitive translation table (`MyRemapper::new`): a nested class is renamed to the
-// translated name of its enclosing class + `$` + its inner name, transitively through chains
-// ---------------------------------------------------------------------------------------------
-mod translate {
-	use super::*;
-	use duke::tree::class::{InnerClassFlags, ObjClassName};
-	use dukenest::nest::{Nest, NestType, Nests};
-	use dukenest::verif::run;
-
-	fn oc(s: &'static str) -> &'static ObjClassNameSlice { unsafe { ObjClassNameSlice::from_inner_unchecked(JavaStr::from_str(s)) } }
-	fn nest(class: &'static str, encl: &'static str, inner: &'static str) -> Nest {
-		Nest { nest_type: NestType::Inner, class_name: oc(class).to_owned(), encl_class_name: oc(encl).to_owned(), encl_method: None, inner_name: oc(inner).to_owned(), inner_access: InnerClassFlags::from(0u16) }
-	}
-
-	pub fn body(all: bool) {
-		// chain p/d in p/c in p/b in p/a; each link may be missing from the table
-		let (nb, nc, nd) = if all { (true, true, true) } else { (sym::bool(), sym::bool(), sym::bool()) };
-		let apply = sym::bool();
-		let mut nests: Nests<()> = Nests::default();
-		// insertion order is not the nesting order on purpose
-		if nd { nests.all.insert(oc("p/d").to_owned(), nest("p/d", "p/c", "D")); }
-		if nb { nests.all.insert(oc("p/b").to_owned(), nest("p/b", "p/a", "B")); }
-		if nc { nests.all.insert(oc("p/c").to_owned(), nest("p/c", "p/b", "C")); }
-		let pairs = run::my_remapper_pairs(&nests, apply);
-		// reference: translated names
-		let tb: &[u8] = if nb { b"p/a$B" } else { b"p/b" };
-		let tc: &[u8] = if nc { if nb { b"p/a$B$C" } else { b"p/b$C" } } else { b"p/c" };
-		let td: &[u8] = if nd { if nc { if nb { b"p/a$B$C$D" } else { b"p/b$C$D" } } else { b"p/c$D" } } else { b"p/d" };
-		let n = nb as usize + nc as usize + nd as usize;
-		assert!(pairs.len() == n, "one translation per listed nest");
-		let mut k = 0;
-		while k < pairs.len() {
-			let (from, to) = if apply { (&pairs[k].0, &pairs[k].1) } else { (&pairs[k].1, &pairs[k].0) };
-			let f = from.as_inner().as_bytes();
-			let want: &[u8] = if bytes_eq(f, b"p/b") { tb } else if bytes_eq(f, b"p/c") { tc } else if bytes_eq(f, b"p/d") { td } else { panic!("a class that is not listed was translated") };
-			assert!(bytes_eq(to.as_inner().as_bytes(), want), "nested name must be Enclosing$Inner, transitively through the chain of nests");
-			k += 1;
-		}
-		witness!(nb && nc && nd && apply, "a chain of depth three");
-		witness!(all || (!nc && nd && !apply), "a broken chain, undo direction");
-		core::mem::forget(pairs); core::mem::forget(nests);
-	}
-}
-
-//# {"id":"c14_translation_depth3","module":"c14_nest::translate_proofs","props":["C14"],"tier":"quick","cap":1500,"bound":"translation table of MyRemapper::new for the full chain p/d in p/c in p/b in p/a (nests inserted in the order d, b, c), apply and undo direction (symbolic); model indexmap; unwind 12","fns":["dukenest::nester_run::MyRemapper::new (build_translation)","duke::tree::class::ObjClassName::from_inner_class"]}
-//# {"id":"c14_translation_chain","module":"c14_nest::translate_proofs","props":["C14"],"tier":"thorough","cap":3600,"bound":"translation table of MyRemapper::new for the chain p/d in p/c in p/b in p/a, every subset of the three nests present (symbolic), apply and undo direction; model indexmap; unwind 12","fns":["dukenest::nester_run::MyRemapper::new (build_translation)","duke::tree::class::ObjClassName::from_inner_class"]}
-pub mod translate_proofs {
-	use crate::proofs;
-	proofs! {
-		#[cfg_attr(kani, kani::unwind(12))]
-		fn c14_translation_chain() { super::translate::body(false); }
-		#[cfg_attr(kani, kani::unwind(12))]
-		fn c14_translation_depth3() { super::translate::body(true); }
-	}
-}
